@@ -12,10 +12,15 @@ META = {'assumptions': [
 
 def _group(ctx, q, tag=''):
     import propka.group as G
-    cls, rn, an = {-1: (G.COOGroup, 'ASP', 'CG'), 1: (G.LYSGroup, 'LYS', 'NZ')}[q]
+    cls, rn, an = {-1: (G.COOGroup, 'ASP', 'CG'), 1: (G.LYSGroup, 'LYS', 'NZ'), 'CYS': (G.CYSGroup, 'CYS', 'SG')}[q]
     a = H.atom(an, rn, 10, 'A', 0.0, 0.0, 0.0)
     g = cls(a)
     g.parameters = H.params()
+    if q == 'CYS':
+        # a cysteine: when it is in a disulfide bridge it is not titratable but still listed in the results
+        # (use_in_calculations); it must not enter any charge sum
+        q = -1
+        g.exclude_cys_from_results = False
     g.charge = q
     g.titratable = True
     g.pka_value = ctx.real('pka' + tag, -20, 40)
@@ -52,7 +57,7 @@ def _conf_with_groups(ctx, n=3):
     conf = H.conformation('AVR', mol=mol)
     gs = []
     for i in range(n):
-        q = ctx.choice('q%d' % i, [-1, 1])
+        q = ctx.choice('q%d' % i, [-1, 1] if i else [-1, 1, 'CYS'])
         g = _group(ctx, q, tag=str(i))
         conf.groups.append(g)
         gs.append(g)
